@@ -121,3 +121,10 @@ def warn_env(modname="_pslinux"):
     def warn(it, msg, *a, **k):
         it.ctx.log.append(("warn", msg))
     return {"warnings.warn": EnvFunc("warnings.warn", warn)}
+
+
+def named(it, label, term):
+    """a fresh constant equal to term, so that counter-models report it under a stable name"""
+    v = it.fresh(label, term.sort, term.bk)
+    it.ctx.assume(Eq(v, term))
+    return v
